@@ -19,6 +19,7 @@ typedef long isize;
 usize nondet_usize(void);
 _Bool nondet_bool(void);
 unsigned char nondet_uchar(void);
+unsigned char g_gate;   /* (g_gate == 9) is a symbolic FALSE (constrained in main): keeps blocked lock acquisitions symbolic so that symex does not prune mid atomic section */
 #ifdef COVERMODE
 #define COVER(c) __CPROVER_cover(c)
 #else
@@ -184,6 +185,7 @@ class Harness:
             out.append("}")
         out.append("int main(void) {")
         out += self.main.storage.render("  ")
+        out.append("  g_gate = nondet_uchar(); __CPROVER_assume(g_gate < 7);")
         pre, post = [], []
         cur = pre
         for ln in self.main.lines:
@@ -258,6 +260,7 @@ class Harness:
         out.append("}")
         out.append("int main(void) {")
         out += self.main.storage.render("  ")
+        out.append("  g_gate = nondet_uchar(); __CPROVER_assume(g_gate < 7);")
         pre, post = [], []
         cur = pre
         for ln in self.main.lines:
@@ -306,6 +309,7 @@ class Harness:
                 out.append(f"#undef {nm}")
         out.append("int main(void) {")
         out += self.main.storage.render("  ")
+        out.append("  g_gate = nondet_uchar(); __CPROVER_assume(g_gate < 7);")
         pre, post = [], []
         cur = pre
         for ln in self.main.lines:
